@@ -372,6 +372,69 @@ def gen_nbest(rng, tier, idx):
 
 
 ADDMANY = ["addmany", "addmanyt", "addmanyi", "addmanyg"]
+BIG_KINDS = ["ulp", "ulp", "timestamps", "timestamps", "mixed", "negative", "beyond-double"]
+
+
+def big_pool(rng, kind, n):
+    """n distinct ascending INTEGER scores a C double cannot tell apart (or cannot hold at all): neighbours above
+    2**53, nanosecond timestamps 40 ns apart, the same below zero, mixed with small ints, ints beyond 1.8e308"""
+    if kind == "ulp":
+        base = rng.choice([2 ** 53, 2 ** 53 + 2, 2 ** 54 + 1, 2 ** 63 - 3, 2 ** 64, 10 ** 17, 2 ** 80 + 5])
+        return [base + k for k in range(n)]
+    if kind == "timestamps":
+        t0 = 1700000000 * 10 ** 9 + rng.randrange(10 ** 9)
+        return [t0 + rng.choice([1, 40, 40, 100]) * k for k in range(n)]
+    if kind == "negative":
+        base = rng.choice([2 ** 53, 2 ** 60 + 1, 10 ** 18])
+        return sorted(-(base + k) for k in range(n))
+    if kind == "beyond-double":
+        return sorted(rng.choice([-1, 1]) * (10 ** 310 + k) for k in range(n))
+    small = list(range(n // 2))
+    return small + [2 ** 53 + 1 + k for k in range(n - len(small))]
+
+
+def gen_nbest_big(rng, tier, idx):
+    """NBest holds (item, score) for ANY mutually comparable scores: integer scores that differ by less than one ulp
+    of a double (and ints no double can hold), handed over as ints and - where a float represents the value exactly
+    - as floats mixed in; the scores that come back must be the values that went in (2**53 + 3 stays 2**53 + 3)"""
+    kind = rng.choice(BIG_KINDS)
+    cap = rng.choice([1, 1, 2, 2, 3, 4, 5, 8])
+    nscores = rng.choice([2, 3, 5, 9, 12])
+    pool = big_pool(rng, kind, nscores)
+    cmds = [["new", cap]]
+    item = 0
+    arrival = rng.choice(["random", "random", "ascending", "descending"])
+    seq = {"ascending": list(pool), "descending": list(reversed(pool))}.get(arrival)
+    k = 0
+
+    def score():
+        nonlocal k
+        if seq is not None and rng.random() < 0.8:
+            k += 1
+            return seq[(k - 1) % len(seq)]
+        return rng.choice(pool)
+    for _ in range(rng.randrange(3, 30 if tier == "quick" else 80)):
+        r = rng.random()
+        if r < 0.45:
+            item += 1
+            cmds.append(["add", item, score()])
+        elif r < 0.6:
+            c = [rng.choice(ADDMANY)]
+            for _ in range(rng.randrange(0, 2 * cap + 3)):
+                item += 1
+                c += [item, score()]
+            cmds.append(c)
+        elif r < 0.7:
+            cmds.append(["pop"])
+        elif r < 0.94:
+            cmds.append(["best"])
+        elif r < 0.97:
+            cmds.append(["len"])
+        else:
+            a = sorted(rng.choice(pool) for _ in range(rng.choice([0, 1, 2, 3, 5, 8, 13])))
+            cmds.append(["bisect", rng.choice(pool) + rng.choice([-1, 0, 0, 1])] + a)
+    cmds.append(["best"])
+    return {"session": "setopsnbest", "cfg": [["cfg", "scale", 1], ["cfg", "mode", "big-" + kind]], "cmds": cmds}
 
 
 def gen_nbest_bulk(rng, tier, idx):
@@ -428,6 +491,8 @@ def gen(rng, tier, idx):
         return gen_setops(rng, tier, idx)
     if r < 0.68:
         return gen_nbest_bulk(rng, tier, idx)
+    if r < 0.76:
+        return gen_nbest_big(rng, tier, idx)
     return gen_nbest(rng, tier, idx)
 
 
@@ -471,12 +536,24 @@ def impl_setops(hyp, case):
 def impl_nbest(hyp, case):
     from hypatia.nbest import NBest
     scale = cfgdict(case)["scale"]
+    big = str(cfgdict(case).get("mode", "")).startswith("big")
+    nth = [0]
 
     def sc(s):
+        if big:
+            # the integer itself; every third time as a float when a float holds exactly this value (ints and floats
+            # compare by value in Python, so the order is the integers' order)
+            nth[0] += 1
+            if nth[0] % 3 == 0 and abs(s) < 2 ** 1000 and int(float(s)) == s:
+                return float(s)
+            return s
         # k/8 as a float unless it is a whole number (mixes int and float scores)
         return s if scale == 1 else (s // scale if s % scale == 0 else s / float(scale))
 
     def unsc(x):
+        if big:
+            # exact: the value that comes back, whatever its type (int(float) is exact for integral floats)
+            return int(x) if x == int(x) else x
         return int(round(x * scale))
     nb = None
     outs = []
@@ -499,9 +576,9 @@ def impl_nbest(hyp, case):
                 outs.append("ok" if ps == before else "argument-modified")
             elif op == "pop":
                 it, s = nb.pop_smallest()
-                outs.append("%d:%d" % (it, unsc(s)))
+                outs.append("%d:%s" % (it, unsc(s)))
             elif op == "best":
-                outs.append("[" + " ".join("%d:%d" % (it, unsc(s)) for it, s in nb.getbest()) + "]")
+                outs.append("[" + " ".join("%d:%s" % (it, unsc(s)) for it, s in nb.getbest()) + "]")
             elif op == "len":
                 outs.append(str(len(nb)))
             elif op == "cap":
@@ -609,6 +686,12 @@ def features(case, outs):
     held = 0
     if cfgdict(case).get("mode") == "bulk":
         f.append("case:nbest-bulk")
+    if str(cfgdict(case).get("mode", "")).startswith("big"):
+        f.append("case:nbest-bigint")
+        f.append("case:nbest-" + cfgdict(case)["mode"])
+        scs = {c[i + 1] for c in case["cmds"] if c[0] in ("add",) + tuple(ADDMANY) for i in range(1, len(c), 2)}
+        if any(a != b and max(abs(a), abs(b)) < 2 ** 1000 and float(a) == float(b) for a in scs for b in scs):
+            f.append("nb:two-scores-one-double")
     for c, o in zip(case["cmds"], outs):
         f.append("nb:" + c[0])
         if o.startswith("err"):
